@@ -46,7 +46,7 @@ def run(pid, tier, seed, replay, module, driver_args_quick, driver_args_thorough
         "samples": [{k: v for k, v in s.items() if k != "post"} for s in stats["samples"][:3]] or [{"note": "no sample"}],
         "design_level": mc_info, "trace_lines": stats["lines"],
         "events": stats["events"], "accepted_events": stats["ok_events"],
-        "known_findings_seen": known,
+        "known_findings_seen": known, "model_drift": dict(report.last_drift),
         "explanation": explanation,
     }
     if extra_cov:
